@@ -53,12 +53,15 @@ func buildHostileScenario(r *Rng, idx int, maxConns int, endings []string) *Scen
 	// rotation with weights: services with more state and code get a larger share of the runs
 	var rot []svcSpec
 	for _, s := range svcs {
-		w := 1
+		w := 2
 		switch s.Key {
 		case "ftp":
-			w = 5
+			w = 10
 		case "smtp", "ldap", "vnc", "ipp", "tftp", "ssh-simulator", "memcached", "redis", "telnet":
-			w = 2
+			w = 4
+		}
+		if protoLike[s.Key] != "" {
+			w = 1 // a service on the transport it was not written for
 		}
 		for ; w > 0; w-- {
 			rot = append(rot, s)
